@@ -40,6 +40,11 @@ structure JPObj where
   payload : String
   preset : Bool
   dryRun : String
+  -- the `.status` stanza the MANIFEST carries ("" / absent = none, else "<Ready status>[:<observedGeneration>]").
+  -- Deliberately dropped by `toPObj`: the managed kinds have a status subresource, the API ignores the
+  -- stanza on every write and answers with the stored object — the model's probes (`probeOk`) only
+  -- ever see the status of the STORED object.
+  status : Option String := none
   deriving FromJson, Repr
 
 structure JSObj where
